@@ -697,7 +697,9 @@ func (s *Service) serve(nc Conn) error {
 	err = s.subscribe(nc, inCh)
 	if err != nil {
 		s.errorf("Failed to subscribe: %s", err)
-		go s.Shutdown()
+		// Stop this Serve call only: by the time the goroutine runs, the
+		// service may have been stopped and be served again.
+		go s.connClosed(nc)
 	} else {
 		// Send a system.reset
 		s.ResetAll()
